@@ -384,6 +384,43 @@ func atomIsMapEntryNil(info *types.Info, a core.Atom, m types.Object, wantNil bo
 	return nil, false
 }
 
+// atomIsMapEntryNilVia is atomIsMapEntryNil that also accepts a local
+// variable which is assigned (only) from m[idx]: `if old := m[i]; old != nil`.
+func atomIsMapEntryNilVia(fn *core.Func, a core.Atom, m types.Object, wantNil bool) (ast.Expr, bool) {
+	info := fn.Info()
+	if idx, ok := atomIsMapEntryNil(info, a, m, wantNil); ok {
+		return idx, true
+	}
+	c, ok := a.AsCmp()
+	if !ok {
+		return nil, false
+	}
+	l, r := c.L, c.R
+	if core.IsNil(info, l) {
+		l, r = r, l
+	}
+	if !core.IsNil(info, r) || !(wantNil && c.Op == token.EQL || !wantNil && c.Op == token.NEQ) {
+		return nil, false
+	}
+	obj := core.ObjOf(info, l)
+	if _, isVar := obj.(*types.Var); !isVar {
+		return nil, false
+	}
+	defs := core.AssignsTo(info, fn.Decl, obj)
+	if len(defs) != 1 {
+		return nil, false
+	}
+	as, ok := defs[0].(*ast.AssignStmt)
+	if !ok || len(as.Rhs) != 1 {
+		return nil, false
+	}
+	ix, ok := ast.Unparen(as.Rhs[0]).(*ast.IndexExpr)
+	if !ok || core.ObjOf(info, ix.X) != m {
+		return nil, false
+	}
+	return ix.Index, true
+}
+
 // loopHeads returns the loop-head vertices (for/range) of g in source order.
 func loopHeads(g *core.Graph) []*core.V {
 	var out []*core.V
